@@ -420,6 +420,22 @@ def check_setter_total(ctx: Ctx, qual, field, rule="WIRING"):
     if not stores:
         ctx.undecided(rule, qual + ":total", fi, f"no store of {field}")
         return 0
+    # the value 0 is in the domain (a vanished droplet: the constructor and from_volume accept it): a validity test in the setter
+    # may reject negative values only — evaluated for the concrete value 0
+    from .collections import _eval_radius_filter
+    from ..astutil import stmt_index
+
+    vparam = fi.params[1] if len(fi.params) > 1 else None
+    si_ = stmt_index(fv)
+    for r_ in [x for x in fv.statements() if isinstance(x, ast.Raise)]:
+        gs = si_.effective_guards(r_)
+        if not gs or vparam is None:
+            continue
+        vals = [_eval_radius_filter(t, 0.0, {vparam: 0.0}) for t, _p in gs]
+        if all(v is not None for v in vals) and all(bool(v) == p for v, (_t, p) in zip(vals, gs)):
+            ctx.violate(rule, qual + ":zero", (fi, r_), f"the setter raises for {vparam} = 0 (`{U(gs[-1][0])[:50]}`): a vanished droplet (volume 0, radius 0) is valid everywhere else "
+                        "(constructor, from_volume), so setting the volume 0 and reading it back fails instead of returning 0")
+            break
     rets = [n.stmt for n in fv.return_nodes() if n.stmt is not None]
     early = [r for r in rets if isinstance(r, ast.Return) and not any(fv.dominates(s, r) for s in stores)]
     ctx.decide(not early, rule, qual + ":total", (fi, early[0]) if early else fi, f"every path through the setter stores {field}",
@@ -774,4 +790,27 @@ def check_property_setters_kept(ctx: Ctx, root_cls="DropletBase", rule="WIRING")
                "no class re-declares a property getter without the setter its base class provides",
                f"{bad[0].qualname if bad else ''} re-declares the property without a setter while {bad[1].name if bad else ''} defines one: for this class `obj.{bad[0].name if bad else ''} = value` raises "
                "AttributeError — setting the quantity and reading it back no longer works for this droplet class")
+    return 1
+
+
+def check_params_not_rebound(ctx: Ctx, qual, names, rule="PARMAP", what="the per-candidate refinement"):
+    """a function that only distributes work hands its inputs on as they are: re-binding the image (a down-cast copy for the
+    worker processes), the candidate list (a pre-filter) or the options in one arm — or before both — makes the result depend on
+    the arm taken or drops candidates the caller asked to refine"""
+    m = ctx.model
+    if not m.has_func(qual):
+        return 0
+    fi = m.func(qual)
+    bad = [x for x in ast.walk(fi.node) if isinstance(x, ast.Name) and x.id in names and isinstance(x.ctx, ast.Store)]
+    # materialising a sequence (`candidates = list(candidates)`) keeps every item
+    same = set()
+    for st in ast.walk(fi.node):
+        if isinstance(st, ast.Assign) and len(st.targets) == 1 and isinstance(st.targets[0], ast.Name) and isinstance(st.value, ast.Call) and U(st.value.func) in ("list", "tuple") \
+                and len(st.value.args) == 1 and not st.value.keywords and U(st.value.args[0]) == st.targets[0].id:
+            same.add(id(st.targets[0]))
+    bad = [x for x in bad if id(x) not in same]
+    ctx.decide(not bad, rule, f"{qual}:inputs-as-given", (fi, bad[0]) if bad else fi, f"{', '.join(names)} reach {what} as the caller gave them",
+               f"`{bad[0].id if bad else ''}` is re-bound inside {fi.name} (line {getattr(bad[0], 'lineno', '?') if bad else ''}): the work is no longer done on the caller's "
+               f"{'image' if bad and 'field' in bad[0].id else 'input'} — a copy in another precision in one arm makes serial and parallel results differ, a filtered candidate list "
+               "drops droplets that the binary image contains")
     return 1
